@@ -18,13 +18,44 @@ constructed object holding the final parameters.
 Antenna models (no setters): single-state machines, 721 angles.
 """
 import math
+import os
+import traceback
 import warnings
+from contextlib import contextmanager
 
 import numpy as np
 
 from vmc import bfs, common
 from vmc.parallel import run_shards
-from vmc.report import Check
+from vmc.report import Broken, Check
+
+@contextmanager
+def own_errors_are_broken():
+    """an exception whose innermost relevant frame is the check's own code (checks/ or vmc/) says nothing
+    about the property: the check is broken (exit 2), never a violation; exceptions raised inside pyphysim
+    for VALID calls are left to chk.guard"""
+    try:
+        yield
+    except (Broken, KeyboardInterrupt, SystemExit):
+        raise
+    except BaseException as e:  # noqa
+        own = (os.path.join(common.VERIF_DIR, "checks") + os.sep, os.path.join(common.VERIF_DIR, "vmc") + os.sep)
+        for fr in reversed(traceback.extract_tb(e.__traceback__)):
+            f = os.path.abspath(fr.filename)
+            if "/pyphysim/" in f:
+                raise
+            if f.startswith(own):
+                raise Broken("exception in the check's own code (%s:%d in %s): %s: %s"
+                             % (os.path.basename(f), fr.lineno, fr.name, type(e).__name__, e))
+        raise
+
+
+@contextmanager
+def guarded(chk, sig, case):
+    with chk.guard(sig, case):
+        with own_errors_are_broken():
+            yield
+
 
 PID = "C13"
 LEVEL = "model_checking"
@@ -278,8 +309,10 @@ def _call(f, *a, **k):
         return ("raise", type(e).__name__)
     if v is None:
         return ("none",)
-    if isinstance(v, np.ndarray):
+    if isinstance(v, np.ndarray) and v.ndim > 0:
         return ("a", np.array(v, dtype=float, copy=True))
+    if isinstance(v, (list, tuple)):
+        return ("a", np.array(v, dtype=float))
     return ("v", float(v))
 
 
@@ -1126,6 +1159,16 @@ def q_do(st, kind, arr):
     return None, r, x
 
 
+def _arraylike(r):
+    """the property speaks of values: any array-like of numbers counts as the array result"""
+    if r is None:
+        return False
+    try:
+        return np.ndim(r) > 0 and np.asarray(r, dtype=float).size >= 0
+    except Exception:  # noqa
+        return False
+
+
 def build_q(fam, hist):
     F = FAMILIES[fam]
     st = QState()
@@ -1149,7 +1192,7 @@ def build_q(fam, hist):
                 rec["result"] = tag
                 st.last_result = None
             else:
-                rec["result"] = ("a", np.array(r, dtype=float, copy=True)) if isinstance(r, np.ndarray) \
+                rec["result"] = ("a", np.array(r, dtype=float, copy=True)) if _arraylike(r) \
                     else (("none",) if r is None else ("other", type(r).__name__))
                 rec["aliases_input"] = isinstance(r, np.ndarray) and isinstance(x, np.ndarray) \
                     and bool(np.shares_memory(r, x))
@@ -1157,7 +1200,7 @@ def build_q(fam, hist):
             rec["inputs_intact"] = all(st.arrays[k].tobytes() == st.bytes[k] for k in st.arrays)
             st.last = rec
         elif ev[0] == "mutate":
-            if st.last_result is not None:
+            if st.last_result is not None and st.last_result.flags.writeable:
                 st.last_result[...] = -3.25         # the caller scribbles over the array it was given
         else:
             attr, value = ev
@@ -1226,7 +1269,7 @@ def check_query_state(chk, fam, hist, st):
     for kind, arr in kinds:
         tag, r, _ = q_do(st, kind, arr)
         got = tag if tag is not None else (("a", np.array(r, dtype=float, copy=True))
-                                           if isinstance(r, np.ndarray) else ("other", type(r).__name__))
+                                           if _arraylike(r) else ("other", type(r).__name__))
         exp = q_expected(fam, st.model, st.hsd, kind, Q_ARRAYS[arr])
         _cmp_query(chk, fam, case, "observation_after_history_%s" % arr, kind, got, exp, cf_tol)
         ff = {"dB": fresh.calc_path_loss_dB, "lin": fresh.calc_path_loss, "inv": fresh.which_distance_dB}[kind]
@@ -1262,7 +1305,7 @@ def run_query_family(chk, fam, depth):
 
     def invariant(hist, st):
         case = {"part": "query", "family": fam, "history": [_ev_json(h) for h in hist]}
-        with chk.guard((fam, "query_history"), case):
+        with guarded(chk, (fam, "query_history"), case):
             with warnings.catch_warnings():
                 warnings.simplefilter("ignore")
                 check_query_state(chk, fam, hist, st)
@@ -1289,7 +1332,7 @@ def run_family(chk, fam, depth, inits_subset=None):
 
     def invariant(hist, st):
         case = {"part": "pathloss", "family": fam, "history": [_ev_json(h) for h in hist]}
-        with chk.guard((fam,), case):
+        with guarded(chk, (fam,), case):
             with warnings.catch_warnings():
                 warnings.simplefilter("ignore")
                 check_pathloss_state(chk, fam, hist, st)
@@ -1350,21 +1393,21 @@ def main(chk: Check):
                     inits = alphabet(f2, thorough)[0]
                     for h in (inits if thorough else inits[:2]):
                         case = {"part": "dtype", "family": f2, "history": [_ev_json(e) for e in h]}
-                        with c.guard((f2, "numeric_forms"), case):
+                        with guarded(c, (f2, "numeric_forms"), case):
                             with warnings.catch_warnings():
                                 warnings.simplefilter("ignore")
                                 check_pathloss_numeric_forms(c, f2, h)
                         c.states += 1
                     for h in (inits if thorough else inits[:2]) + PRESENTATION_ROOTS_EXTRA.get(f2, []):
                         case = {"part": "presentation", "family": f2, "history": [_ev_json(e) for e in h]}
-                        with c.guard((SITE[f2], "presentation"), case):
+                        with guarded(c, (SITE[f2], "presentation"), case):
                             with warnings.catch_warnings():
                                 warnings.simplefilter("ignore")
                                 check_presentations(c, f2, h)
                         c.states += 2
             else:
                 for case in antenna_cases():
-                    with c.guard(("antenna_" + case["kind"],), case):
+                    with guarded(c, ("antenna_" + case["kind"],), case):
                         check_antenna(c, case)
                     c.states += 1
 
@@ -1384,34 +1427,34 @@ def main(chk: Check):
 
 def replay(case, chk: Check):
     if case.get("part") == "antenna":
-        with chk.guard(("antenna_" + case["kind"],), case):
+        with guarded(chk, ("antenna_" + case["kind"],), case):
             check_antenna(chk, {k: v for k, v in case.items()})
         return
     fam = case["family"]
     hist = tuple(_ev_from_json(h) for h in case["history"])
     if case.get("part") == "query":
         base = {"part": "query", "family": fam, "history": case["history"]}
-        with chk.guard((fam, "query_history"), base):
+        with guarded(chk, (fam, "query_history"), base):
             with warnings.catch_warnings():
                 warnings.simplefilter("ignore")
                 check_query_state(chk, fam, hist, build_q(fam, hist))
         return
     if case.get("part") == "presentation":
         base = {"part": "presentation", "family": fam, "history": case["history"]}
-        with chk.guard((SITE[fam], "presentation"), base):
+        with guarded(chk, (SITE[fam], "presentation"), base):
             with warnings.catch_warnings():
                 warnings.simplefilter("ignore")
                 check_presentations(chk, fam, hist)
         return
     if case.get("part") == "dtype":
         base = {"part": "dtype", "family": fam, "history": case["history"]}
-        with chk.guard((fam, "numeric_forms"), base):
+        with guarded(chk, (fam, "numeric_forms"), base):
             with warnings.catch_warnings():
                 warnings.simplefilter("ignore")
                 check_pathloss_numeric_forms(chk, fam, hist)
         return
     base = {"part": "pathloss", "family": fam, "history": case["history"]}
-    with chk.guard((fam,), base):
+    with guarded(chk, (fam,), base):
         with warnings.catch_warnings():
             warnings.simplefilter("ignore")
             check_pathloss_state(chk, fam, hist, build(fam, hist))
